@@ -406,7 +406,7 @@ theorem getD_nonneg {L : List Int} (hl : ∀ c ∈ L, 0 ≤ c) (k : Nat) : 0 ≤
   | none => simp
   | some v => exact hl v (List.mem_of_getElem? h)
 
-theorem sel_colon {n : Int} (hn : 0 ≤ n) : sel colon n = rangeList 0 n 1 := by
+theorem sel_colon (n : Int) : sel colon n = rangeList 0 n 1 := by
   simp [sel, colon, istart, istop, stp]
 
 theorem sel_full {n : Int} (hn : 0 ≤ n) : sel ⟨some 0, some n, some 1⟩ n = sel colon n := by
@@ -458,8 +458,8 @@ theorem planPositions_finish {L : List Int} (hl : ∀ c ∈ L, 0 ≤ c) (d : Lis
     planPositions L (finish L d) = planPositions L d := by
   by_cases h : d = []
   · subst h
-    rw [finish_nil, planPositions_cons, planPositions_nil]
-    simp [sel_empty (getD_nonneg hl 0)]
+    rw [finish_nil, planPositions_cons, planPositions_nil, sel_empty (getD_nonneg hl 0)]
+    rfl
   · rw [finish_ne_nil L d h, planPositions_map_fin1 hl]
 
 theorem planLengths_finish {L : List Int} (hl : ∀ c ∈ L, 0 ≤ c) (d : List (Nat × PySlice))
@@ -522,5 +522,556 @@ theorem loopPos_keys (c : Int) : ∀ (lens : List Int) (i : Nat) (start stop : I
       intro p hp
       have := ih.2 p hp
       simp only [List.length_cons]; omega
+
+/-! ### `normalize_slice` and the way `_slice_1d` re-reads it -/
+
+theorem istart_bounds (s : PySlice) (n : Int) (hn : 0 ≤ n) (hs : 0 < s.stp) :
+    0 ≤ s.istart n ∧ s.istart n ≤ n := by
+  have hneg : ¬ s.stp < 0 := by omega
+  unfold istart adjust
+  cases s.start with
+  | none => simp [hneg]; omega
+  | some v => simp only [hneg, decide_false, Bool.false_eq_true, if_false]; split <;> split <;> omega
+
+theorem istop_bounds (s : PySlice) (n : Int) (hn : 0 ≤ n) (hs : 0 < s.stp) :
+    0 ≤ s.istop n ∧ s.istop n ≤ n := by
+  have hneg : ¬ s.stp < 0 := by omega
+  unfold istop adjust
+  cases s.stop with
+  | none => simp [hneg]; omega
+  | some v => simp only [hneg, decide_false, Bool.false_eq_true, if_false]; split <;> split <;> omega
+
+theorem ns_step (s : PySlice) (dim : Int) (hs : 0 < s.stp) :
+    (normalizeSlice s dim).step = if s.stp = 1 then none else some s.stp := by
+  unfold normalizeSlice
+  simp only [gt_iff_lt, hs, if_true]
+
+theorem ns_start (s : PySlice) (dim : Int) (hs : 0 < s.stp) :
+    (normalizeSlice s dim).start = none ∧ s.istart dim = 0 ∨
+      (normalizeSlice s dim).start = some (s.istart dim) := by
+  unfold normalizeSlice
+  simp only [gt_iff_lt, hs, if_true]
+  by_cases h1 : s.istart dim = 0 <;> simp [h1]
+
+theorem ns_stop (s : PySlice) (dim : Int) (hd : 0 ≤ dim) (hs : 0 < s.stp) :
+    (normalizeSlice s dim).stop = none ∧ s.istop dim = dim ∨
+      (normalizeSlice s dim).stop = some (max (s.istart dim) (s.istop dim)) := by
+  obtain ⟨a0, a1⟩ := istart_bounds s dim hd hs
+  obtain ⟨b0, b1⟩ := istop_bounds s dim hd hs
+  unfold normalizeSlice
+  simp only [gt_iff_lt, hs, if_true]
+  by_cases h1 : s.istart dim = 0 <;> by_cases h2 : s.istop dim ≥ dim <;>
+    by_cases h3 : s.istop dim < s.istart dim <;>
+    simp [h1, h2, h3] <;> omega
+
+/-- `_slice_1d` on a non-trivial positive-step index whose fields denote `a`, `e`, `c`. -/
+theorem slice1d_pos_eq (dim : Int) (L : List Int) (index : PySlice) (c a e : Int)
+    (hcol : index ≠ colon) (hc : 0 < c)
+    (hstep : index.step = if c = 1 then none else some c)
+    (hst : index.start = none ∧ a = 0 ∨ index.start = some a)
+    (hsp : index.stop = none ∧ e = dim ∨ index.stop = some e)
+    (ha : 0 ≤ a) (he : 0 ≤ e) :
+    slice1d dim L index =
+      finish L (loopPos c
+        ((L.drop (bisectRight (cumsum L) a)).take
+          (min (bisectLeft (cumsum L) e + 1) L.length - bisectRight (cumsum L) a))
+        (bisectRight (cumsum L) a)
+        (a - (if bisectRight (cumsum L) a > 0
+                then (cumsum L).getD (bisectRight (cumsum L) a - 1) 0 else 0))
+        (e - (if bisectRight (cumsum L) a > 0
+                then (cumsum L).getD (bisectRight (cumsum L) a - 1) 0 else 0))) := by
+  unfold slice1d
+  rw [if_neg hcol]
+  obtain ⟨st, sp, stp⟩ := index
+  simp only at hstep hst hsp
+  subst hstep
+  have hc0 : ¬ c = 0 := by omega
+  have ha' : ¬ a < 0 := by omega
+  have he' : ¬ e < 0 := by omega
+  rcases hst with ⟨rfl, rfl⟩ | rfl <;> rcases hsp with ⟨rfl, rfl⟩ | rfl <;>
+    by_cases h1 : c = 1 <;> simp [h1, hc, ha', he']
+
+/-! ### the `bisect` jump to `istart` and the `istop` cut -/
+
+theorem blockStart_zero (L : List Int) : blockStart L 0 = 0 := by simp [blockStart, isum]
+
+theorem blockStart_add (L : List Int) (i k : Nat) :
+    blockStart L (i + k) = blockStart L i + isum ((L.drop i).take k) := by
+  unfold blockStart
+  rw [List.take_add, isum_append]
+
+theorem isum_split (L : List Int) (i k : Nat) :
+    isum L = blockStart L i + isum ((L.drop i).take k) + isum ((L.drop i).drop k) := by
+  unfold blockStart
+  conv => lhs; rw [← List.take_append_drop i L, isum_append,
+    ← List.take_append_drop k (L.drop i), isum_append]
+  omega
+
+theorem off_eq (L : List Int) (i0 : Nat) (h : i0 ≤ L.length) :
+    (if i0 > 0 then (cumsum L).getD (i0 - 1) 0 else 0) = blockStart L i0 := by
+  by_cases h0 : i0 > 0
+  · rw [if_pos h0, cumsum_getD L (i0 - 1) (by omega)]
+    congr 1; omega
+  · have : i0 = 0 := by omega
+    subst this; simp [blockStart_zero]
+
+theorem blockStart_istart_le (L : List Int) (a : Int) (ha : 0 ≤ a) :
+    blockStart L (bisectRight (cumsum L) a) ≤ a := by
+  have hle := bisectRight_le (cumsum L) a
+  rw [cumsum_length] at hle
+  rw [← off_eq L _ hle]
+  split
+  · exact bisectRight_spec (cumsum L) a _ (by omega)
+  · exact ha
+
+/-- blocks before `istart` and from `istop` on contain no selected position. -/
+theorem region (L : List Int) (a e c : Int) (hl : ∀ x ∈ L, 0 ≤ x) (ha : 0 ≤ a) :
+    selIn a e c 0 (isum L)
+      = selIn a e c (blockStart L (bisectRight (cumsum L) a))
+          (isum ((L.drop (bisectRight (cumsum L) a)).take
+            (min (bisectLeft (cumsum L) e + 1) L.length - bisectRight (cumsum L) a))) := by
+  have hi0 := bisectRight_le (cumsum L) a
+  rw [cumsum_length] at hi0
+  have hb0 := blockStart_istart_le L a ha
+  generalize hi0d : bisectRight (cumsum L) a = i0 at *
+  generalize hkd : min (bisectLeft (cumsum L) e + 1) L.length - i0 = k
+  have hpre : 0 ≤ blockStart L i0 :=
+    isum_nonneg _ (fun x hx => hl x (List.mem_of_mem_take hx))
+  have hmid : 0 ≤ isum ((L.drop i0).take k) :=
+    isum_nonneg _ (fun x hx => hl x (List.mem_of_mem_drop (List.mem_of_mem_take hx)))
+  have htail : 0 ≤ isum ((L.drop i0).drop k) :=
+    isum_nonneg _ (fun x hx => hl x (List.mem_of_mem_drop (List.mem_of_mem_drop hx)))
+  rw [isum_split L i0 k, selIn_append _ _ _ _ _ _ (by omega) htail,
+    selIn_append _ _ _ _ _ _ hpre hmid]
+  have h1 : selIn a e c 0 (blockStart L i0) = [] := by
+    apply selIn_eq_nil; intro p _ _ _ _; omega
+  have h3 : selIn a e c (0 + (blockStart L i0 + isum ((L.drop i0).take k)))
+      (isum ((L.drop i0).drop k)) = [] := by
+    by_cases ht : (L.drop i0).drop k = []
+    · rw [ht]; apply selIn_eq_nil; intro p _ _ _ _; simp [isum] at *; omega
+    · have hlen : k < (L.drop i0).length := by
+        apply Classical.byContradiction
+        intro hk
+        exact ht (List.drop_eq_nil_of_le (by omega))
+      rw [List.length_drop] at hlen
+      have hbl : bisectLeft (cumsum L) e + 1 < L.length := by omega
+      have hspec := bisectLeft_spec (cumsum L) e (by rw [cumsum_length]; omega)
+      rw [cumsum_getD L _ (by omega)] at hspec
+      rw [← blockStart_add]
+      by_cases hcase : i0 ≤ bisectLeft (cumsum L) e + 1
+      · have : i0 + k = bisectLeft (cumsum L) e + 1 := by omega
+        rw [this]
+        apply selIn_eq_nil; intro p _ _ _ _; omega
+      · have hle : (cumsum L).getD (bisectLeft (cumsum L) e) 0 ≤ a :=
+          bisectRight_spec (cumsum L) a _ (by omega)
+        rw [cumsum_getD L _ (by omega)] at hle
+        apply selIn_eq_nil; intro p _ _ _ _; omega
+  rw [h1, h3]
+  simp
+
+/-! ### the whole-axis selection as a `selIn` -/
+
+theorem sel_eq_selIn (s : PySlice) (dim : Int) (hd : 0 ≤ dim) (hs : 0 < s.stp) :
+    sel s dim = selIn (s.istart dim) (max (s.istart dim) (s.istop dim)) s.stp 0 dim := by
+  obtain ⟨a0, a1⟩ := istart_bounds s dim hd hs
+  obtain ⟨b0, b1⟩ := istop_bounds s dim hd hs
+  unfold sel
+  apply eq_of_sorted_of_mem_iff
+  · exact rangeList_sorted hs
+  · exact selIn_sorted ..
+  · intro x
+    rw [mem_rangeList_pos hs, mem_selIn]
+    omega
+
+/-! ### the `index == slice(None)` fast path -/
+
+theorem colon_block {E base len : Int} (h0 : 0 ≤ base) (h1 : base + len ≤ E) :
+    (sel colon len).map (· + base) = selIn 0 E 1 base len := by
+  rw [sel_colon]
+  apply eq_of_sorted_of_mem_iff
+  · exact sorted_map_add _ _ (rangeList_sorted (by omega))
+  · exact selIn_sorted ..
+  · intro x
+    rw [mem_map_add, mem_rangeList_pos (by omega), mem_selIn]
+    omega
+
+theorem colon_reads (L : List Int) (E : Int) :
+    ∀ (lens : List Int) (i : Nat) (tail : List Int),
+      L.drop i = lens ++ tail → (∀ x ∈ lens, 0 ≤ x) → 0 ≤ blockStart L i →
+      blockStart L i + isum lens ≤ E →
+      planPositions L ((List.range' i lens.length).map (fun j => (j, colon)))
+        = selIn 0 E 1 (blockStart L i) (isum lens)
+  | [], i, tail, _, _, _, _ => by
+    simp [planPositions_nil, isum, selIn]
+  | len :: rest, i, tail, hd, hnn, h0, hE => by
+    obtain ⟨hg, hd', hb⟩ := drop_cons_facts (rest := rest ++ tail) (by simpa using hd)
+    have hlen : 0 ≤ len := hnn len (by simp)
+    have hrest : ∀ x ∈ rest, 0 ≤ x := fun x hx => hnn x (by simp [hx])
+    have hsum : 0 ≤ isum rest := isum_nonneg _ hrest
+    simp only [isum] at hE ⊢
+    have ih := colon_reads L E rest (i + 1) tail hd' hrest (by omega) (by omega)
+    rw [selIn_append _ _ _ _ _ _ hlen hsum, List.length_cons, List.range'_succ, List.map_cons,
+      planPositions_cons, ih, hb]
+    simp only [hg]
+    rw [colon_block (E := E) h0 (by omega)]
+
+/-! ### main theorems -/
+
+theorem finish_keys_sorted (L : List Int) (d : List (Nat × PySlice))
+    (h : (d.map (·.1)).Pairwise (· < ·)) : ((finish L d).map (·.1)).Pairwise (· < ·) := by
+  rw [keys_finish]
+  split
+  · simp
+  · exact h
+
+/-- facts about a normalized positive-step slice equal to `slice(None)`. -/
+theorem colon_facts (s : PySlice) (dim : Int) (hd : 0 ≤ dim) (hs : 0 < s.stp)
+    (hcol : normalizeSlice s dim = colon) :
+    s.istart dim = 0 ∧ s.istop dim = dim ∧ s.stp = 1 := by
+  have h1 := ns_step s dim hs
+  have h2 := ns_start s dim hs
+  have h3 := ns_stop s dim hd hs
+  rw [hcol] at h1 h2 h3
+  simp only [colon] at h1 h2 h3
+  refine ⟨?_, ?_, ?_⟩
+  · rcases h2 with h2 | h2
+    · exact h2.2
+    · simp at h2
+  · rcases h3 with h3 | h3
+    · exact h3.2
+    · simp at h3
+  · by_cases h : s.stp = 1
+    · exact h
+    · simp [h] at h1
+
+/-- the shape of the plan when the normalized index is not `slice(None)`. -/
+theorem slice1d_norm_pos (L : List Int) (s : PySlice) (hl : ∀ c ∈ L, 0 ≤ c) (hs : 0 < s.stp)
+    (hcol : normalizeSlice s (isum L) ≠ colon) :
+    slice1d (isum L) L (normalizeSlice s (isum L)) =
+      finish L (loopPos s.stp
+        ((L.drop (bisectRight (cumsum L) (s.istart (isum L)))).take
+          (min (bisectLeft (cumsum L) (max (s.istart (isum L)) (s.istop (isum L))) + 1) L.length
+            - bisectRight (cumsum L) (s.istart (isum L))))
+        (bisectRight (cumsum L) (s.istart (isum L)))
+        (s.istart (isum L) - blockStart L (bisectRight (cumsum L) (s.istart (isum L))))
+        (max (s.istart (isum L)) (s.istop (isum L))
+          - blockStart L (bisectRight (cumsum L) (s.istart (isum L))))) := by
+  have hd : 0 ≤ isum L := isum_nonneg L hl
+  obtain ⟨a0, a1⟩ := istart_bounds s _ hd hs
+  obtain ⟨b0, b1⟩ := istop_bounds s _ hd hs
+  have hsp : (normalizeSlice s (isum L)).stop = none ∧
+        max (s.istart (isum L)) (s.istop (isum L)) = isum L ∨
+      (normalizeSlice s (isum L)).stop = some (max (s.istart (isum L)) (s.istop (isum L))) := by
+    rcases ns_stop s _ hd hs with h | h
+    · left; exact ⟨h.1, by omega⟩
+    · right; exact h
+  rw [slice1d_pos_eq (isum L) L _ s.stp (s.istart (isum L))
+    (max (s.istart (isum L)) (s.istop (isum L))) hcol hs (ns_step s _ hs) (ns_start s _ hs) hsp
+    a0 (by omega)]
+  have hi0 := bisectRight_le (cumsum L) (s.istart (isum L))
+  rw [cumsum_length] at hi0
+  rw [off_eq L _ hi0]
+
+theorem slice1d_partition_pos (lengths : List Int) (s : PySlice)
+    (hl : ∀ c ∈ lengths, 0 ≤ c) (hs : 0 < s.stp) :
+    planPositions lengths (sortByKey (slice1d (isum lengths) lengths (normalizeSlice s (isum lengths))))
+      = sel s (isum lengths) := by
+  have hd : 0 ≤ isum lengths := isum_nonneg lengths hl
+  obtain ⟨a0, a1⟩ := istart_bounds s _ hd hs
+  by_cases hcol : normalizeSlice s (isum lengths) = colon
+  · obtain ⟨ha, hb, hc⟩ := colon_facts s _ hd hs hcol
+    rw [hcol, sel_eq_selIn s _ hd hs, ha, hb, hc]
+    have hplan : slice1d (isum lengths) lengths colon
+        = (List.range' 0 lengths.length).map (fun j => (j, colon)) := by
+      simp [slice1d, List.range_eq_range']
+    rw [hplan, sortByKey_sorted]
+    · have := colon_reads lengths (isum lengths) lengths 0 [] (by simp) hl
+        (by simp [blockStart_zero]) (by simp [blockStart_zero])
+      rw [this, blockStart_zero]
+      congr 1; omega
+    · rw [List.map_map]
+      have : ((fun (p : Nat × PySlice) => p.1) ∘ fun j => (j, colon)) = id := rfl
+      rw [this, List.map_id]
+      exact List.pairwise_lt_range'
+  · rw [slice1d_norm_pos lengths s hl hs hcol]
+    rw [sortByKey_sorted _ (finish_keys_sorted _ _ (loopPos_keys _ _ _ _ _).1),
+      planPositions_finish hl]
+    rw [loopPos_reads lengths (s.istart (isum lengths))
+      (max (s.istart (isum lengths)) (s.istop (isum lengths))) s.stp hs _ _
+      ((lengths.drop (bisectRight (cumsum lengths) (s.istart (isum lengths)))).drop
+        (min (bisectLeft (cumsum lengths)
+          (max (s.istart (isum lengths)) (s.istop (isum lengths))) + 1) lengths.length
+            - bisectRight (cumsum lengths) (s.istart (isum lengths))))
+      _ _ (List.take_append_drop _ _).symm
+      (fun x hx => hl x (List.mem_of_mem_drop (List.mem_of_mem_take hx)))]
+    · rw [sel_eq_selIn s _ hd hs, region lengths _ _ _ hl a0]
+    · have := blockStart_istart_le lengths _ a0
+      refine ⟨Or.inr ?_, rfl⟩
+      unfold relStart
+      rw [if_pos this]
+
+example : planPositions [15,14,13] (sortByKey (slice1d 42 [15,14,13]
+    (normalizeSlice ⟨some 10, some 41, some 3⟩ 42))) = sel ⟨some 10, some 41, some 3⟩ 42 := by
+  decide
+
+example : sel ⟨some 10, some 41, some 3⟩ 42 = [10, 13, 16, 19, 22, 25, 28, 31, 34, 37, 40] := by
+  decide
+
+/-! ### block numbers -/
+
+theorem slice1d_keys_pos (lengths : List Int) (s : PySlice)
+    (hl : ∀ c ∈ lengths, 0 ≤ c) (hs : 0 < s.stp) :
+    let plan := slice1d (isum lengths) lengths (normalizeSlice s (isum lengths))
+    List.Pairwise (· < ·) (plan.map (·.1)) ∧ ∀ p ∈ plan, p.1 < max 1 lengths.length := by
+  intro plan
+  by_cases hcol : normalizeSlice s (isum lengths) = colon
+  · have hplan : plan = (List.range' 0 lengths.length).map (fun j => (j, colon)) := by
+      simp [plan, hcol, slice1d, List.range_eq_range']
+    rw [hplan]
+    refine ⟨?_, ?_⟩
+    · rw [List.map_map]
+      have : ((fun (p : Nat × PySlice) => p.1) ∘ fun j => (j, colon)) = id := rfl
+      rw [this, List.map_id]
+      exact List.pairwise_lt_range'
+    · intro p hp
+      rw [List.mem_map] at hp
+      obtain ⟨j, hj, rfl⟩ := hp
+      rw [List.mem_range'_1] at hj
+      simp only; omega
+  · have hplan := slice1d_norm_pos lengths s hl hs hcol
+    simp only [plan]
+    rw [hplan]
+    have hk := loopPos_keys s.stp
+      ((lengths.drop (bisectRight (cumsum lengths) (s.istart (isum lengths)))).take
+        (min (bisectLeft (cumsum lengths)
+          (max (s.istart (isum lengths)) (s.istop (isum lengths))) + 1) lengths.length
+            - bisectRight (cumsum lengths) (s.istart (isum lengths))))
+      (bisectRight (cumsum lengths) (s.istart (isum lengths)))
+      (s.istart (isum lengths)
+        - blockStart lengths (bisectRight (cumsum lengths) (s.istart (isum lengths))))
+      (max (s.istart (isum lengths)) (s.istop (isum lengths))
+        - blockStart lengths (bisectRight (cumsum lengths) (s.istart (isum lengths))))
+    refine ⟨finish_keys_sorted _ _ hk.1, ?_⟩
+    intro p hp
+    have hp' : p.1 ∈ (finish lengths _).map (·.1) := List.mem_map_of_mem hp
+    rw [keys_finish] at hp'
+    split at hp'
+    · simp at hp'; omega
+    · rw [List.mem_map] at hp'
+      obtain ⟨q, hq, hqe⟩ := hp'
+      have := hk.2 q hq
+      rw [List.length_take, List.length_drop] at this
+      omega
+
+/-! ### `new_blockdim` -/
+
+theorem ceilDiv_rangeLen {st T c : Int} (hc : 0 < c) (h : -c < T - st) :
+    ceilDiv (T - st) c = (rangeLen st T c : Int) := by
+  unfold ceilDiv pyDiv rangeLen
+  simp only [gt_iff_lt, hc, if_true]
+  by_cases hlt : st < T
+  · rw [if_pos hlt]
+    have e1 := Int.emod_add_mul_ediv (T - st - 1) c
+    have e2 := Int.emod_nonneg (T - st - 1) (by omega : c ≠ 0)
+    have e3 := Int.emod_lt_of_pos (T - st - 1) hc
+    have hq : 0 ≤ (T - st - 1) / c := Int.ediv_nonneg (by omega) (by omega)
+    have key : (-(T - st)) / c = -((T - st - 1) / c) - 1 ∧
+        (-(T - st)) % c = c - (T - st - 1) % c - 1 := by
+      rw [Int.ediv_emod_unique hc]
+      refine ⟨?_, by omega, by omega⟩
+      rw [Int.mul_sub, Int.mul_neg, Int.mul_one]
+      omega
+    rw [key.1]
+    omega
+  · rw [if_neg hlt, Int.ediv_eq_zero_of_lt (by omega) (by omega)]
+    simp
+
+theorem emit_len {S E c base start stop len : Int} (hc : 0 < c)
+    (hinv : Inv S E c base start stop) (hSE : S ≤ E) (h1 : start < len) (h2 : stop > 0) :
+    ceilDiv (min stop len - start) c
+      = ((sel ⟨some start, some (min stop len), some c⟩ len).length : Int) := by
+  obtain ⟨hs, rfl⟩ := hinv
+  have hs : start = relStart S base c := by omega
+  have h0 : 0 ≤ start := hs ▸ relStart_nonneg hc
+  rw [sel_block h0 h1 h2 hc, length_rangeList]
+  apply ceilDiv_rangeLen hc
+  unfold relStart at hs
+  split at hs
+  · omega
+  · have hlt : (S - base) % c < c := Int.emod_lt_of_pos _ hc
+    omega
+
+/-- what `new_blockdim` computes for one plan entry. -/
+def entryLen (p : Nat × PySlice) : Int :=
+  ceilDiv (p.2.stop.getD 0 - p.2.start.getD 0) (p.2.step.getD 1)
+
+theorem loopPos_entries (L : List Int) (S E c : Int) (hc : 0 < c) (hSE : S ≤ E) :
+    ∀ (lens : List Int) (i : Nat) (tail : List Int) (start stop : Int),
+      L.drop i = lens ++ tail → (∀ x ∈ lens, 0 ≤ x) →
+      Inv S E c (blockStart L i) start stop →
+      ∀ p ∈ loopPos c lens i start stop,
+        p.2.start ≠ none ∧ entryLen p = ((sel p.2 (L.getD p.1 0)).length : Int)
+  | [], i, tail, start, stop, _, _, _ => by simp [loopPos]
+  | len :: rest, i, tail, start, stop, hd, hnn, hinv => by
+    obtain ⟨hg, hd', hb⟩ := drop_cons_facts (rest := rest ++ tail) (by simpa using hd)
+    have hlen : 0 ≤ len := hnn len (by simp)
+    have hrest : ∀ x ∈ rest, 0 ≤ x := fun x hx => hnn x (by simp [hx])
+    unfold loopPos
+    by_cases hcond : start < len ∧ stop > 0
+    · rw [if_pos hcond]
+      have ih := loopPos_entries L S E c hc hSE rest (i + 1) tail _ _ hd' hrest
+        (hb ▸ inv_step_emit hc hinv hcond.1 hcond.2)
+      intro p hp
+      rw [List.mem_cons] at hp
+      rcases hp with rfl | hp
+      · refine ⟨by simp, ?_⟩
+        simp only [entryLen, Option.getD_some, hg]
+        exact emit_len hc hinv hSE hcond.1 hcond.2
+      · exact ih p hp
+    · rw [if_neg hcond]
+      exact loopPos_entries L S E c hc hSE rest (i + 1) tail _ _ hd' hrest
+        (hb ▸ inv_step_skip hc hlen hinv hcond)
+
+theorem colon_lengths (L : List Int) :
+    ∀ (lens : List Int) (i : Nat) (tail : List Int),
+      L.drop i = lens ++ tail → (∀ x ∈ lens, 0 ≤ x) →
+      planLengths L ((List.range' i lens.length).map (fun j => (j, colon))) = lens
+  | [], i, tail, _, _ => by simp [planLengths]
+  | len :: rest, i, tail, hd, hnn => by
+    obtain ⟨hg, hd', hb⟩ := drop_cons_facts (rest := rest ++ tail) (by simpa using hd)
+    have hlen : 0 ≤ len := hnn len (by simp)
+    have hrest : ∀ x ∈ rest, 0 ≤ x := fun x hx => hnn x (by simp [hx])
+    have ih := colon_lengths L rest (i + 1) tail hd' hrest
+    unfold planLengths at ih ⊢
+    rw [List.length_cons, List.range'_succ, List.map_cons, List.map_cons, ih]
+    simp only [hg, sel_colon, length_rangeList]
+    congr 1
+    unfold rangeLen
+    simp
+    split <;> omega
+
+/-- the un-rewriting step of `new_blockdim` undoes the rewriting step of `finish`. -/
+theorem unfin1 (L : List Int) (p : Nat × PySlice) (hp : p.2.start ≠ none) :
+    (if (fin1 L p).2 = colon then (⟨some 0, some (L.getD (fin1 L p).1 0), some 1⟩ : PySlice)
+      else (fin1 L p).2) = p.2 := by
+  unfold fin1
+  by_cases h : p.2 = ⟨some 0, some (L.getD p.1 0), some 1⟩
+  · rw [if_pos h]; simp [h]
+  · rw [if_neg h]
+    have : p.2 ≠ colon := by
+      intro hc; rw [hc] at hp; exact hp rfl
+    rw [if_neg this]
+
+theorem newBlockdim_eq_planLengths_pos (lengths : List Int) (s : PySlice)
+    (hl : ∀ c ∈ lengths, 0 ≤ c) (hs : 0 < s.stp) :
+    newBlockdim (isum lengths) lengths (normalizeSlice s (isum lengths))
+      = planLengths lengths
+          (sortByKey (slice1d (isum lengths) lengths (normalizeSlice s (isum lengths)))) := by
+  have hd : 0 ≤ isum lengths := isum_nonneg lengths hl
+  obtain ⟨a0, a1⟩ := istart_bounds s _ hd hs
+  by_cases hcol : normalizeSlice s (isum lengths) = colon
+  · unfold newBlockdim
+    rw [if_pos hcol, hcol]
+    have hplan : slice1d (isum lengths) lengths colon
+        = (List.range' 0 lengths.length).map (fun j => (j, colon)) := by
+      simp [slice1d, List.range_eq_range']
+    rw [hplan, sortByKey_sorted]
+    · exact (colon_lengths lengths lengths 0 [] (by simp) hl).symm
+    · rw [List.map_map]
+      have : ((fun (p : Nat × PySlice) => p.1) ∘ fun j => (j, colon)) = id := rfl
+      rw [this, List.map_id]
+      exact List.pairwise_lt_range'
+  · unfold newBlockdim
+    rw [if_neg hcol]
+    have hstep : (normalizeSlice s (isum lengths)).step = if s.stp = 1 then none else some s.stp :=
+      ns_step s _ hs
+    have hplan := slice1d_norm_pos lengths s hl hs hcol
+    generalize hdd : loopPos s.stp
+        ((lengths.drop (bisectRight (cumsum lengths) (s.istart (isum lengths)))).take
+          (min (bisectLeft (cumsum lengths)
+            (max (s.istart (isum lengths)) (s.istop (isum lengths))) + 1) lengths.length
+              - bisectRight (cumsum lengths) (s.istart (isum lengths))))
+        (bisectRight (cumsum lengths) (s.istart (isum lengths)))
+        (s.istart (isum lengths)
+          - blockStart lengths (bisectRight (cumsum lengths) (s.istart (isum lengths))))
+        (max (s.istart (isum lengths)) (s.istop (isum lengths))
+          - blockStart lengths (bisectRight (cumsum lengths) (s.istart (isum lengths)))) = d
+      at hplan
+    have hent : ∀ p ∈ d, p.2.start ≠ none ∧
+        entryLen p = ((sel p.2 (lengths.getD p.1 0)).length : Int) := by
+      rw [← hdd]
+      apply loopPos_entries lengths (s.istart (isum lengths))
+        (max (s.istart (isum lengths)) (s.istop (isum lengths))) s.stp hs (by omega) _ _
+        ((lengths.drop (bisectRight (cumsum lengths) (s.istart (isum lengths)))).drop
+          (min (bisectLeft (cumsum lengths)
+            (max (s.istart (isum lengths)) (s.istop (isum lengths))) + 1) lengths.length
+              - bisectRight (cumsum lengths) (s.istart (isum lengths))))
+        _ _ (List.take_append_drop _ _).symm
+        (fun x hx => hl x (List.mem_of_mem_drop (List.mem_of_mem_take hx)))
+      have := blockStart_istart_le lengths _ a0
+      refine ⟨Or.inr ?_, rfl⟩
+      unfold relStart
+      rw [if_pos this]
+    have hkeys : ((finish lengths d).map (·.1)).Pairwise (· < ·) := by
+      apply finish_keys_sorted
+      rw [← hdd]
+      exact (loopPos_keys _ _ _ _ _).1
+    rw [hplan, sortByKey_sorted _ hkeys]
+    have hcommon : ∀ f : Nat × PySlice → PySlice,
+        (∀ p, f p = if p.2 = colon then
+          (⟨some 0, some (lengths.getD p.1 0), some 1⟩ : PySlice) else p.2) →
+        ((finish lengths d).map f).map
+            (fun slc => ceilDiv (slc.stop.getD 0 - slc.start.getD 0) (slc.step.getD 1))
+          = planLengths lengths (finish lengths d) := by
+      intro f hf
+      by_cases hdn : d = []
+      · subst hdn
+        rw [finish_nil]
+        simp only [planLengths, List.map_cons, List.map_nil, hf,
+          sel_empty (getD_nonneg hl 0)]
+        simp [colon, ceilDiv, pyDiv]
+      · rw [planLengths_finish hl d hdn, finish_ne_nil lengths d hdn]
+        unfold planLengths
+        rw [List.map_map, List.map_map]
+        apply List.map_congr_left
+        intro p hp
+        obtain ⟨hp1, hp2⟩ := hent p hp
+        simp only [Function.comp]
+        rw [hf, unfin1 lengths p hp1, ← hp2]
+        rfl
+    split
+    · rename_i c heq
+      rw [hstep] at heq
+      have hc : ¬ (c ≠ 0 ∧ c < 0) := by
+        by_cases h1 : s.stp = 1
+        · simp [h1] at heq
+        · simp [h1] at heq; omega
+      dsimp only
+      rw [if_neg hc]
+      exact hcommon _ (fun ⟨i, slc⟩ => rfl)
+    · dsimp only
+      exact hcommon _ (fun ⟨i, slc⟩ => rfl)
+
+theorem newBlockdim_pos (lengths : List Int) (s : PySlice)
+    (hl : ∀ c ∈ lengths, 0 ≤ c) (hs : 0 < s.stp) :
+    let dim := isum lengths
+    let idx := normalizeSlice s dim
+    isum (newBlockdim dim lengths idx) = ((sel s dim).length : Int) ∧
+    ((sel s dim) ≠ [] → newBlockdim dim lengths idx
+      = planLengths lengths (sortByKey (slice1d dim lengths idx))) := by
+  intro dim idx
+  have h := newBlockdim_eq_planLengths_pos lengths s hl hs
+  refine ⟨?_, fun _ => h⟩
+  rw [h, ← slice1d_partition_pos lengths s hl hs]
+  generalize sortByKey (slice1d (isum lengths) lengths (normalizeSlice s (isum lengths))) = plan
+  induction plan with
+  | nil => rfl
+  | cons p ps ih =>
+    rw [planPositions_cons, List.length_append, List.length_map]
+    simp only [planLengths, List.map_cons, isum] at ih ⊢
+    rw [ih]; omega
+
+example : newBlockdim 42 [15,14,13] (normalizeSlice ⟨some 10, some 41, some 3⟩ 42) = [2, 5, 4] := by
+  decide
 
 end Dask.Lemmas.Slice1dPos
